@@ -1,5 +1,8 @@
 import Bmc.Lemmas.MessageRoundTrip
 import Bmc.Lemmas.V2RoundTrip
+import Bmc.Lemmas.V2RoundTripAuth
+import Bmc.Lemmas.V1RoundTrip
+import Bmc.Lemmas.Rakp1RoundTrip
 import Bmc.Lemmas.AesRoundTrip
 import Bmc.Crypto.Toy
 /-! # C08 — serialise-then-decode is the identity for the two-way layers (property theorems only) -/
@@ -24,21 +27,88 @@ example : ({ function := 0x2d, body := 0xdc, command := 2, remoteAddress := 0x81
              completionCode := 0xc1 } : Message).WF :=
   ⟨by decide, by decide, by decide, by decide, by decide, by decide, by decide, by decide⟩
 
-/-- v2.0 session wrapper without the authenticated trailer (session-less traffic and RMCP+ setup payloads), with and
-    without the OEM payload descriptor, every payload length < 65536.
-    PARTIAL: the authenticated trailer (0xFF pad scan, pad length, next header, AuthCode) is covered by the
-    correspondence run (`rt v2`, all integrity algorithms, payload lengths 0…200/480) but its Lean round-trip theorem
-    is not proved yet. -/
-theorem v2_roundtrip_partial (mac : Bytes → Bytes) (s : V2Session) (inner : Bytes) (h : s.WF inner)
-    (hu : s.authenticated = false) :
+/-- v2.0 session wrapper, with and without the authenticated trailer (integrity pad of 0xFF bytes, pad length, next
+    header, AuthCode), with and without the OEM payload descriptor, for EVERY integrity function `mac` (any output of
+    any length, so every algorithm and key), every payload length < 65536: decoding the serialisation returns the same
+    fields (with the `Length`, `Pad` and `Signature` the serialiser computed) and the inner payload -/
+theorem v2_roundtrip (mac : Bytes → Bytes) (s : V2Session) (inner : Bytes) (h : s.WF inner) :
     V2Session.decode mac (V2Session.encode mac s inner).2 =
       .ok { (V2Session.encode mac s inner).1 with
             contents := (V2Session.encode mac s inner).2.take (if s.payloadType == 2 then 18 else 12)
             payload := inner } :=
-  V2Session.decode_encode_unauth mac s inner h hu
+  V2Session.decode_encode mac s inner h
 
+/-- … and serialising the decoded value over the decoded payload reproduces the same bytes -/
+theorem v2_reencode (mac : Bytes → Bytes) (s : V2Session) (inner : Bytes) (h : s.WF inner) (d : V2Session)
+    (hd : V2Session.decode mac (V2Session.encode mac s inner).2 = .ok d) :
+    (V2Session.encode mac d d.payload).2 = (V2Session.encode mac s inner).2 := by
+  rw [V2Session.decode_encode mac s inner h] at hd
+  injection hd with hd
+  subst hd
+  exact V2Session.reencode mac s inner _ _
+
+/-- the hypotheses are satisfiable: an unauthenticated and an authenticated, encrypted OEM-descriptor value -/
 example : ({ payloadType := 2, enterprise := 0x1234, payloadID := 7, id := 5, sequence := 9 } : V2Session).WF [1, 2, 3] :=
   ⟨by decide, by decide, by decide, by decide, by decide, by decide, by decide, by decide⟩
+
+example : ({ payloadType := 2, enterprise := 0x1234, payloadID := 7, id := 5, sequence := 9, authenticated := true,
+             encrypted := true } : V2Session).WF [1, 2, 3] :=
+  ⟨by decide, by decide, by decide, by decide, by decide, by decide, by decide, by decide⟩
+
+/-- v1.5 session wrapper, both forms (authentication type none: 10-byte header; any other type: 26 bytes with the
+    16-byte AuthCode), every payload: decoding the serialisation returns the same fields (with the `Length` the
+    serialiser computed) and the inner payload. (`V1Session.decode` is the decoder with the AuthCode reset of finding
+    F12b, which /repo now has.) -/
+theorem v1_roundtrip (s : V1Session) (inner : Bytes) (h : s.WF) :
+    V1Session.decode (V1Session.encode s inner).2 =
+      .ok { (V1Session.encode s inner).1 with
+            contents := (V1Session.encode s inner).2.take (if s.authType == 0 then 10 else 26)
+            payload := inner } :=
+  V1Session.decode_encode s inner h
+
+/-- the `Length` byte is the payload length for every payload shorter than 256 bytes (beyond that `uint8(len)` wraps,
+    and the round trip above still holds) -/
+theorem v1_length (s : V1Session) (inner : Bytes) (h : inner.length < 256) :
+    (V1Session.encode s inner).1.length.toNat = inner.length :=
+  V1Session.encode_length s inner h
+
+theorem v1_reencode (s : V1Session) (inner : Bytes) (h : s.WF) (d : V1Session)
+    (hd : V1Session.decode (V1Session.encode s inner).2 = .ok d) :
+    (V1Session.encode d d.payload).2 = (V1Session.encode s inner).2 := by
+  rw [V1Session.decode_encode s inner h] at hd
+  injection hd with hd
+  subst hd
+  exact V1Session.reencode s inner _ _
+
+example : ({ sequence := 0xfffffffe, id := 0x01020304 } : V1Session).WF := ⟨by decide, by decide, by decide, by decide⟩
+example : ({ authType := 2, sequence := 7, id := 0xa0a1a2a3, authCode := (List.range 16).map UInt8.ofNat } : V1Session).WF :=
+  ⟨by decide, by decide, by decide, by decide⟩
+
+/-- RAKP Message 1, every tag, session ID, console random, role (lookup flag and privilege nibble) and user name of
+    0…16 bytes: the serialiser succeeds with 28 + |user name| bytes, and decoding them returns the same value
+    (`Contents` = the whole message; the layer has no inner payload) -/
+theorem rakp1_roundtrip (v : Setup.RAKP1) (h : v.WF) :
+    ∃ b, v.serialize = .ok b ∧ b.length = 28 + v.username.length ∧
+      Setup.RAKP1.decode b = .ok { v with contents := b } :=
+  Setup.RAKP1.decode_serialize v h
+
+/-- a user name longer than 16 bytes is refused by the serialiser -/
+theorem rakp1_toolong (v : Setup.RAKP1) (h : 16 < v.username.length) : v.serialize = .error () :=
+  Setup.RAKP1.serialize_toolong v h
+
+theorem rakp1_reencode (v : Setup.RAKP1) (h : v.WF) (b : Bytes) (hb : v.serialize = .ok b) (d : Setup.RAKP1)
+    (hd : Setup.RAKP1.decode b = .ok d) : d.serialize = .ok b := by
+  obtain ⟨b', hb', _, hdec⟩ := Setup.RAKP1.decode_serialize v h
+  rw [hb] at hb'
+  injection hb' with hb'
+  subst hb'
+  rw [hdec] at hd
+  injection hd with hd
+  subst hd
+  exact (Setup.RAKP1.reserialize v b).trans hb
+
+example : ({ tag := 3, bmcSID := 0x04030201, consoleRandom := (List.range 16).map UInt8.ofNat, lookup := true, maxPriv := 4,
+             username := [0x61, 0x64, 0x6d, 0x69, 0x6e] } : Setup.RAKP1).WF := ⟨by decide, by decide, by decide, by decide⟩
 
 /-- AES-128-CBC confidentiality layer: for every lawful block cipher, key, 16-byte IV and message of EVERY length,
     decoding the serialisation returns the IV and the message -/
